@@ -98,7 +98,7 @@ class Check(object):
     rule = ''
     checker_cmd = 'cd lean && lake build && lake env lean <#print axioms file>'
     # opt-in: report a correspondence break even when (only) known findings were seen in the same run
-    strict_correspondence = False
+    strict_correspondence = True
 
     def explore(self, tier, seed):
         raise NotImplementedError
